@@ -169,7 +169,10 @@ class Build(Harness):
         cl.append(("Vector(v.tolist(), v.dtype) equals v", T(out["rebuilt_equal"] is True)))
         cl.append(("equal is reflexive", T(out["self_equal"] is True)))
         # (6) na_dtype can hold na_value as missing
-        if n: cl.append(("v.astype(v.na_dtype) can hold v.na_value as a missing value", T(out["na_dtype_holds_na"] is True)))
+        if n:
+            cl.append(("v.astype(v.na_dtype) can hold v.na_value as a missing value", T(out["na_dtype_holds_na"] is True)))
+            cl.append(("a missing value put() into an already inspected vector is seen by is_na and tolist", T(out.get("put_na_seen") is True)))
+            cl.append(("put() leaves the missing-ness of the other positions alone", T(all(out.get("put_others_kept", [])))))
         # (7) drop_na / replace_na touch exactly the missing positions
         dn = out["drop_na"]
         cnt = BV(0)
